@@ -757,6 +757,10 @@ class Interp:
                     self.broken(fn, e, 'copy construction from a %s' % type(src).__name__)
                 val[i] = copy_rec(src)
                 return
+            nat = self.natives.get(e.get('fq') or '')
+            if nat is not None:
+                val[i] = nat(self, fn, e, None, args)
+                return
             key = self.lookup(fn, e)
             if key is None:
                 self.broken(fn, e, 'constructor %s has no facts' % e.get('fq'))
